@@ -53,8 +53,17 @@ pub enum Illegal {
     /// impl of a foreign trait for a foreign *generic* type instantiated at a local type
     OrphanImplGenericArg,
     /// a file of a multi-file package uses a package that only its sibling files import
-    /// (0 = two-segment call, 1 = three-segment inherent path, 2 = three-segment trait path)
+    /// (0 = two-segment call, 1 = three-segment inherent path, 2 = three-segment trait path,
+    /// 3 = struct literal, 4 = struct pattern, 5 = enum variant pattern, 6 = enum constructor)
     NotImportedInThisFile(u8),
+    /// impl of a foreign trait for a builtin type (0 Vec[int32], 1 Ref[int32], 2 int32, 3 string,
+    /// 4 tuple, 5 array, 6 function type, 10 Vec[foreign struct], 11 unit), or an inherent impl
+    /// for a type that is not the package's own (7 Vec[int32], 8 int32, 9 foreign struct)
+    OrphanImplBuiltin(u8),
+    /// a package directory whose files all declare another package name, inside an import cycle
+    /// through the *directory* name (0 = it imports its own directory name, 1 = a package it
+    /// reaches imports it back)
+    MisnamedInCycle(u8),
 }
 
 #[derive(Clone, Copy, Debug, PartialEq, serde::Serialize, serde::Deserialize)]
@@ -75,7 +84,7 @@ pub enum Via {
     StructPattern,
 }
 
-pub const ILLEGAL_KINDS: [Illegal; 23] = [
+pub const ILLEGAL_KINDS: [Illegal; 41] = [
     Illegal::NotImported,
     Illegal::NotImportedVia(Via::SignatureType),
     Illegal::NotImportedVia(Via::LetAnnotation),
@@ -99,6 +108,24 @@ pub const ILLEGAL_KINDS: [Illegal; 23] = [
     Illegal::NotImportedInThisFile(0),
     Illegal::NotImportedInThisFile(1),
     Illegal::NotImportedInThisFile(2),
+    Illegal::NotImportedInThisFile(3),
+    Illegal::NotImportedInThisFile(4),
+    Illegal::NotImportedInThisFile(5),
+    Illegal::NotImportedInThisFile(6),
+    Illegal::OrphanImplBuiltin(0),
+    Illegal::OrphanImplBuiltin(1),
+    Illegal::OrphanImplBuiltin(2),
+    Illegal::OrphanImplBuiltin(3),
+    Illegal::OrphanImplBuiltin(4),
+    Illegal::OrphanImplBuiltin(5),
+    Illegal::OrphanImplBuiltin(6),
+    Illegal::OrphanImplBuiltin(7),
+    Illegal::OrphanImplBuiltin(8),
+    Illegal::OrphanImplBuiltin(9),
+    Illegal::OrphanImplBuiltin(10),
+    Illegal::OrphanImplBuiltin(11),
+    Illegal::MisnamedInCycle(0),
+    Illegal::MisnamedInCycle(1),
 ];
 
 fn reaches(proj: &Project, from: usize, to: usize) -> bool {
@@ -320,17 +347,97 @@ pub fn inject(proj: &Project, kind: &Illegal, p: &mut Prng) -> Option<(Files, Fi
             let (pi, qi) = *p.pick(&cands);
             let qn = proj.pkgs[qi].name.clone();
             twin.pkgs[qi].raw.push_str(
-                "\nstruct ZzS {\n    x: int32,\n}\n\ntrait ZzT {\n    fn zz(Self) -> int32;\n}\n\nimpl ZzT for ZzS {\n    fn zz(self: ZzS) -> int32 {\n        self.x\n    }\n}\n\nimpl ZzS {\n    fn zzn() -> int32 {\n        3\n    }\n}\n\nfn zz_pub() -> int32 {\n    7\n}\n\nfn zz_mk() -> ZzS {\n    ZzS { x: 1 }\n}\n",
+                "\nstruct ZzS {\n    x: int32,\n}\n\ntrait ZzT {\n    fn zz(Self) -> int32;\n}\n\nimpl ZzT for ZzS {\n    fn zz(self: ZzS) -> int32 {\n        self.x\n    }\n}\n\nimpl ZzS {\n    fn zzn() -> int32 {\n        3\n    }\n}\n\nfn zz_pub() -> int32 {\n    7\n}\n\nfn zz_mk() -> ZzS {\n    ZzS { x: 1 }\n}\n\nenum ZzE {\n    ZA,\n    ZB(int32),\n}\n\nfn zz_mk_e() -> ZzE {\n    ZzE::ZB(4)\n}\n",
             );
-            let item = match form % 3 {
+            // a sibling file (which does import the package) hands out values of its types
+            twin.pkgs[pi].raw.push_str(&format!(
+                "\nfn zz_loc() -> {qn}::ZzS {{\n    {qn}::zz_mk()\n}}\n\nfn zz_loc_e() -> {qn}::ZzE {{\n    {qn}::zz_mk_e()\n}}\n"
+            ));
+            let item = match form % 7 {
                 0 => format!("fn zz_use() -> int32 {{\n    {qn}::zz_pub()\n}}\n"),
                 1 => format!("fn zz_use() -> int32 {{\n    {qn}::ZzS::zzn()\n}}\n"),
-                _ => format!("fn zz_use() -> int32 {{\n    {qn}::ZzT::zz({qn}::zz_mk())\n}}\n"),
+                2 => format!("fn zz_use() -> int32 {{\n    {qn}::ZzT::zz({qn}::zz_mk())\n}}\n"),
+                3 => format!("fn zz_use() -> int32 {{\n    let v = {qn}::ZzS {{ x: 3 }};\n    1\n}}\n"),
+                4 => format!("fn zz_use() -> int32 {{\n    let {qn}::ZzS {{ x: px }} = zz_loc();\n    px\n}}\n"),
+                5 => format!("fn zz_use() -> int32 {{\n    match zz_loc_e() {{\n        {qn}::ZzE::ZA => 1,\n        _ => 0,\n    }}\n}}\n"),
+                _ => format!("fn zz_use() -> int32 {{\n    let e = {qn}::ZzE::ZB(2);\n    1\n}}\n"),
             };
             twin.pkgs[pi].raw_last.push_str(&format!("\n{item}"));
             bad = twin.clone();
             bad.pkgs[pi].omit_import_last = Some(qi);
             desc = format!("the last file of {} uses {qn} (form {form}) but only its sibling files import {qn}", proj.pkgs[pi].name);
+        }
+        Illegal::OrphanImplBuiltin(form) => {
+            let mut cands = Vec::new();
+            for pi in 0..n {
+                if !proj.pkgs[pi].imports.is_empty() {
+                    cands.push(pi);
+                }
+            }
+            if cands.is_empty() {
+                return None;
+            }
+            let pi = *p.pick(&cands);
+            let qi = *p.pick(&proj.pkgs[pi].imports);
+            twin.pkgs[qi].raw.push_str("\ntrait ZzT {\n    fn zz(Self) -> int32;\n}\n\nstruct ZzS {\n    x: int32,\n}\n");
+            bad = twin.clone();
+            let q = &proj.pkgs[qi].name;
+            let (ty, inherent) = match form % 12 {
+                0 => ("Vec[int32]".to_string(), false),
+                1 => ("Ref[int32]".to_string(), false),
+                2 => ("int32".to_string(), false),
+                3 => ("string".to_string(), false),
+                4 => ("(int32, int32)".to_string(), false),
+                5 => ("[int32; 2]".to_string(), false),
+                6 => ("(int32) -> int32".to_string(), false),
+                7 => ("Vec[int32]".to_string(), true),
+                8 => ("int32".to_string(), true),
+                9 => (format!("{q}::ZzS"), true),
+                10 => (format!("Vec[{q}::ZzS]"), false),
+                _ => ("unit".to_string(), false),
+            };
+            if inherent {
+                bad.pkgs[pi].raw_last.push_str(&format!("\nimpl {ty} {{\n    fn zzq(self: {ty}) -> int32 {{\n        1\n    }}\n}}\n"));
+                desc = format!("{} gives inherent methods to {ty}, which is not its own type", proj.pkgs[pi].name);
+            } else {
+                bad.pkgs[pi].raw_last.push_str(&format!("\nimpl {q}::ZzT for {ty} {{\n    fn zz(self: {ty}) -> int32 {{\n        1\n    }}\n}}\n"));
+                desc = format!("{} implements foreign trait {q}::ZzT for {ty}", proj.pkgs[pi].name);
+            }
+        }
+        Illegal::MisnamedInCycle(form) => {
+            if n < 2 {
+                return None;
+            }
+            let (pi, back) = if form % 2 == 0 {
+                let pi = 1 + p.usize(n - 1);
+                (pi, pi)
+            } else {
+                let mut cands = Vec::new();
+                for pi in 1..n {
+                    for qi in 1..n {
+                        if pi != qi && reaches(proj, pi, qi) {
+                            cands.push((pi, qi));
+                        }
+                    }
+                }
+                if cands.is_empty() {
+                    return None;
+                }
+                *p.pick(&cands)
+            };
+            let t = twin.render();
+            bad = twin.clone();
+            bad.pkgs[back].extra_imports.push(proj.pkgs[pi].name.clone());
+            let mut b = bad.render();
+            let wrong = if p.chance(1, 2) { proj.pkgs[pi].name.to_lowercase() } else { format!("Zz{}", proj.pkgs[pi].name) };
+            for f in proj.pkg_files(pi) {
+                if let Some(bytes) = b.get(&f) {
+                    let text = String::from_utf8_lossy(bytes).to_string();
+                    let newtext = text.replacen(&format!("package {}", proj.pkgs[pi].name), &format!("package {wrong}"), 1);
+                    b.insert(f.clone(), newtext.into_bytes());
+                }
+            }
+            return Some((t, b, format!("directory {} declares package {wrong} and {} imports {} (a cycle through the directory name)", proj.pkgs[pi].name, proj.pkgs[back].name, proj.pkgs[pi].name)));
         }
         Illegal::UnknownItem => {
             let mut cands = Vec::new();
